@@ -96,6 +96,13 @@ def kwUpdate (base : Kw) : Kw → Kw
   | [] => base
   | (k, v) :: rest => kwUpdate (kwSet k v base) rest
 
+/-- the keys of a dictionary -/
+def kwKeys (kw : Kw) : List String := kw.map (fun p => p.1)
+
+/-- the caller's keyword arguments without the four names the wrapper reserves -/
+def stripReserved (kw : Kw) : Kw :=
+  kwDel "timeout" (kwDel "sync" (kwDel "callback" (kwDel "_doApply" kw)))
+
 /-- The command object that is pickled: `funcID | (funcID, args) | (funcID, args, kwargs)`. -/
 inductive Packed where
   | bare (f : Nat)
